@@ -288,13 +288,15 @@ def _pad_face_connections(
                         else:
                             concat_list = [source_slice, target_slice]
 
+                        # (the padded array keeps its own name: across an axis-swapping link the strip
+                        # that is added comes from the other component)
                         target_da = xr.concat(
                             concat_list,
                             dim=target_dim,
                             coords="minimal",
                             compat="override",
                             join="override",
-                        )
+                        ).rename(target_slice.name)
                         # TODO: Can we do this with an assignment in xarray? Maybe not important yet.
         faces.append(target_da)
 
